@@ -417,7 +417,7 @@ func (W) Exec(p *world.Plan, env *world.Env) {
 			x.at = fmt.Sprintf("op#%d %s b%d %s m%d", i, op.K, op.B, vname(vkey{op.T % len(ifc.Ifaces), op.N % 3}), op.F)
 			simcore.Yield(simcore.SiteOp, uintptr(i))
 			x.step(op)
-			env.Res.Ops++
+			env.Op()
 		}
 		x.at = "final"
 		var bs []int
